@@ -185,11 +185,9 @@ func (x *Explorer) call(st *State, site ssa.CallInstruction, cc *ssa.CallCommon,
 	}
 	callee := cc.StaticCallee()
 	var closure *ssa.MakeClosure
-	if callee == nil {
-		if mc, ok := cc.Value.(*ssa.MakeClosure); ok {
-			closure = mc
-			callee = mc.Fn.(*ssa.Function)
-		}
+	if mc, ok := cc.Value.(*ssa.MakeClosure); ok {
+		closure = mc
+		callee = mc.Fn.(*ssa.Function)
 	}
 	if callee == nil {
 		// dynamic call through a function value
@@ -301,10 +299,9 @@ func sliceBase(v ssa.Value) ssa.Value {
 }
 
 // classOk computes the success facts a call to callee grants when its error result is nil.
-func (x *Explorer) classOk(st *State, callee *ssa.Function, mustAtCall EffSet) EffSet {
+func (x *Explorer) classOk(st *State, callee *ssa.Function, delta EffSet) EffSet {
 	cl := x.C.Of(callee)
 	var ok EffSet
-	delta := st.must.Minus(mustAtCall)
 	if cl.Has(EErrUnique) {
 		ok = ok.With(EOkUniq)
 		if cl.Has(EIdxWLive) {
@@ -351,11 +348,12 @@ func (x *Explorer) stepReturn(st *State, ret *ssa.Return) bool {
 	callee := fr.fn
 	site := fr.site
 	deferred := fr.deferred
-	mustAtCall := fr.mustAtCall
-	ok := x.classOk(st, callee, mustAtCall)
+	seen := fr.seen
+	ok := x.classOk(st, callee, seen)
 	// pop
 	d := st.depth()
 	st.frames = st.frames[:len(st.frames)-1]
+	st.top().seen = st.top().seen.Union(seen)
 	for k := range st.env {
 		if k.d >= d {
 			delete(st.env, k)
